@@ -199,6 +199,17 @@ def explore_c04(rng, tier, res, deep=False):
               "$[?length(@.a)]", "$[?match(@.a,'b')==true]", "$[?nope(@.a)]", "$[9007199254740992]", "$[-9007199254740992]",
               "$[1:9007199254740992]", "$[::-9007199254740992]"]
     qs.update(listed)
+    # malformed numbers in every numeric position: digits outside %x30-39 (Unicode decimal digits, superscripts, Roman
+    # numerals), signs, separators, hexadecimal and other base prefixes, doubled points and exponents, infinities
+    D = ["\u0665", "\u0661", "\uff11", "\U0001d7cf", "\u0967", "\u00b2", "\u2160", "\u0e51", "\u1041"]
+    odd = []
+    for d in D:
+        odd += [f"1.{d}", f"{d}.5", f"1e-{d}", f"1.5e{d}", f"1.5e-{d}", f"{d}", f"-{d}", f"1{d}", f"{d}e-1", f"{d}{d}.{d}{d}", f"1e{d}", f"0.{d}e1"]
+    odd += ["1_0", "1_0.5", "1.5_0", "0x10", "0b1", "0o7", "1e1.5", "1..5", "1.5.5", "1ee1", "1e--1", "1e+-1", "+1.5", "--1", "-+1", "1.5e", "1.e5",
+            ".5e1", "1e", "inf", "-inf", "Infinity", "nan", "NaN", "1.5f", "1L", "1j", "1,5", "1 .5", "1. 5", "1 e1", "1e 1", "- 1", "-.5", "1/2", "٣٫٥"]
+    for sp in odd:
+        qs.update([f"$[?@.a=={sp}]", f"$[?{sp}<@]", f"$[?@=={sp}&&@.b]", f"$[?length(@)>={sp}]", f"$[?match(@.a,{sp})]", f"$[{sp}]", f"$[{sp}:]", f"$[:{sp}]",
+                   f"$[::{sp}]", f"$[?@[{sp}]]", f"$..[{sp}]"])
     qs = sorted(qs)
     compile_cases(res, FULL_ENV, qs, "C04", want="invalid")
 
@@ -221,6 +232,12 @@ def random_registry(rng):
             continue
         used.add(name)
         fns.append((name, ats, ret, "const"))
+    # names whose signature is drawn afresh for every registry: anything the parser or the type checker remembers
+    # about a function NAME (rather than looking it up in the compiling environment) shows up as a verdict that
+    # belongs to an earlier registry
+    for name in ("g", "h", "pick", "k2"):
+        n = rng.randint(0, 2)
+        fns.append((name, [rng.choice(TYS) for _ in range(n)], rng.choice(TYS), "const"))
     # always some canonical ones so that every position can be filled
     for name, ats, ret in (("vv", ["V"], "V"), ("ll", ["L"], "L"), ("nn", ["N"], "N"), ("vl", ["V"], "L"), ("nv", ["N"], "V"), ("ln", ["L"], "N")):
         if name not in used:
@@ -322,8 +339,8 @@ def explore_c05(rng, tier, res, deep=False):
         "type; compile() must accept iff the independent validity judgement (Spec.Valid on the derivation, "
         "parentheses kept) says valid. Non-trivial = distinct (registry, query) judged valid."
     )
-    rounds = 60 if tier == "thorough" else (10 if deep else 4)
-    per = 800 if tier == "thorough" else 450
+    rounds = 80 if tier == "thorough" else (16 if deep else 8)
+    per = 600 if tier == "thorough" else 230
     for _ in range(rounds):
         fns = random_registry(rng)
         hi = rng.choice([2**53 - 1, 10, 3, 100])
@@ -409,7 +426,27 @@ def explore_c13(rng, tier, res, deep=False):
         "complete or raise a JSONPathError. Non-trivial = distinct string that does not compile."
     )
     n = sizes(tier, deep, 2500, 50000)
-    qs = sorted({garbage(rng) for _ in range(n)})
+    qs = {garbage(rng) for _ in range(n)}
+    # the longest strings of the quantifier (1024 characters) built from the shortest operands: flat chains of one
+    # operator (each operand costs the parser a fixed number of interpreter frames), alone and ending in the deepest
+    # allowed nesting; long segment chains; the interpreter's own recursion limit must not be reached
+    for op in ("||", "&&"):
+        for operand in ("@", "$", "1<2", "!@"):
+            k = (1024 - 4) // (len(operand) + len(op))
+            qs.add("$[?" + op.join([operand] * k) + "]")
+            qs.add("$[?" + op.join([operand] * (k - 1)) + "]")
+        nest = "@[?" * 31 + "@" + "]" * 31
+        k = (1024 - 4 - len(nest)) // 3
+        qs.add("$[?" + op.join(["@"] * k + [nest]) + "]")
+        qs.add("$[?" + ("@" + op) * 150 + "(" * 30 + "@" + ")" * 30 + "]")
+    qs.add("$[?" + "||".join("@&&@" for _ in range(170)) + "]")
+    qs.add("$[?" + "!" .join([""] * 2) + "(" * 31 + "@" + ")" * 31 + "]")
+    qs.add("$" + ".a" * 511)
+    qs.add("$" + "[0]" * 341)
+    qs.add("$" + "..a" * 341)
+    qs.add("$[?" + ",?".join(["@"] * 340) + "]")
+    qs.add("$[?length(" + "value(" * 100 + "@" + ")" * 100 + ")==1]")
+    qs = sorted(q for q in qs if len(q) <= 1024)
     env = real.make_env(FULL_ENV)
     reals, out = compile_cases(res, FULL_ENV, qs, "C13")
     roots = [None, True, 0, 1.5, "", "abc", [], {}, [0, False, "", None, [], {}, [1, [2]], {"a": {"a": 1}}],
@@ -910,6 +947,14 @@ def lexer_would_pass(body, quote):
 
 C08_NAMES = ["", "a", "'", '"', "\\", "\\'", "a'b\"c", "\x00", "\x01", "\x07", "\b", "\t", "\n", "\x0b", "\f", "\r", "\x0e", "\x1f", " ",
              "\x7f", "\x80", "é", " ", "퟿", "", "￿", "😀", "\U0010ffff", "a\nb", "'\\'", "\\\\", "\\u0041", "0", "-1", "*", "$", "@"]
+
+
+# identifier-like names with ONE special character in front or behind (anchors such as `$` and classes such as `\w`,
+# `\s`, `.` treat a trailing LF, a Unicode space or a Unicode letter/digit in ways a hand-written table does not)
+for _base in ("a", "abc", "_", "A1", "z_9"):
+    for _x in ("\n", "\r", "\t", " ", "\x0b", "\x0c", "\x1f", "\x7f", "\x85", "\xa0", "\u2028", "\u2029", "'", '"', "\\", "é", "\u0661", "\uff11"):
+        C08_NAMES.append(_base + _x)
+        C08_NAMES.append(_x + _base)
 
 
 def explore_c08(rng, tier, res, deep=False):
